@@ -91,6 +91,7 @@ class Registry:
         self.lemmas: list = []
         self.fold_cache: dict = {}
         self.fold_defs: dict = {}
+        self.map_defs: dict = {}
         self.map_cache: dict = {}
         self.uf_cache: dict = {}
         self.qfacts: list = []        # quantified facts registered for instantiation
@@ -112,6 +113,7 @@ class Registry:
         self._td_building = set()
         self._struct: dict = {}
         self._rec_by_node: dict = {}
+        self._optional_overrides: dict = {}
 
     def _td_lookup(self, name: str, module: str | None):
         """Resolve a TypedDict name in the context of a module: own definition, imported one, or unique."""
@@ -179,6 +181,9 @@ class Registry:
                             if isinstance(s2, ast.AnnAssign) and isinstance(s2.target, ast.Name):
                                 ty, _ = self._td_field_type(s2.annotation, m2)
                                 fields.append((s2.target.id, ty, True))
+        ov = self._optional_overrides.get(bare, set())
+        if ov:
+            fields = [(k, t, (o or k in ov)) for k, t, o in fields]
         skey = tuple((k, t, o) for k, t, o in fields)
         if skey in self._struct and fields:
             r = self._struct[skey]                 # structurally identical records are one type
@@ -376,6 +381,10 @@ class Registry:
                         self._parse_contract(call, path)
                 elif fn == "klass":
                     self._parse_klass(node.value)
+                elif fn == "record_override":
+                    kw = self._kw(node.value)
+                    self._optional_overrides.setdefault(node.value.args[0].value, set()).update(
+                        x.value for x in kw["optional"].elts)
                 elif fn == "lemma":
                     self.lemmas.append((node.value, path))
             elif isinstance(node, ast.FunctionDef):
@@ -546,7 +555,7 @@ class Registry:
             ref = st.alloc(ObjCell(kd.of or ty[1], flds, owner, ty[1]))
             for cl in kd.invariant:
                 t = self.spec_eval(ex, st, cl.fn, {"self": ref})
-                st.assume(self.as_bool(ex, st, t), f"inv:{ty[1]}.{cl.name}")
+                st.assume(self.as_bool(ex, st, t), f"cinv:{ty[1]}.{cl.name}")
             return ref
         if kind == "list":
             return st.alloc(ListCell(ty[1], fresh(TSeq(ty[1]).sort(), name), None, owner))
@@ -604,7 +613,7 @@ class Registry:
         raise EngineUnsupported(f"class attribute {cls}.{attr}")
 
     # ------------------------------------------------------------------ spec evaluation
-    def spec_eval(self, ex: Executor, st: State, fn, env: dict, pre_heap=None, entry=None) -> Val:
+    def spec_eval(self, ex: Executor, st: State, fn, env: dict, pre_heap=None, entry=None, params=None) -> Val:
         """Evaluate a contract lambda (or expression) in spec mode: pure, total, non-forking."""
         sub = SpecExecutor(ex, self)
         s = st.clone()
@@ -614,6 +623,8 @@ class Registry:
             s.pre_heap = pre_heap
         if entry is not None:
             s.ghost["$entry"] = entry
+        if params is not None:
+            s.ghost["$params"] = params
         body = fn.body if isinstance(fn, ast.Lambda) else fn
         res = sub.eval(s, body)
         if len(res) != 1 or isinstance(res[0][1], Raised):
@@ -691,7 +702,7 @@ class Registry:
         if fname == "seq_empty":
             ty = self._as_ty(self.parse_type(e.args[0]))
             return [(st, VSeq(ty, z3.Empty(TSeq(ty).sort())))]
-        if fname == "seq_map" and isinstance(ex, SpecExecutor):
+        if fname in ("seq_map", "seq_mapi") and isinstance(ex, SpecExecutor):
             return ex.special_map(st, e)
 
         def k_func(s, f):
@@ -909,7 +920,13 @@ class Registry:
         for pn, tx in c.args.items():
             if pn in env:
                 try:
-                    self.coerce_to_view(ex, st, env[pn], self.parse_type(tx))
+                    pty = self.parse_type(tx)
+                    self.coerce_to_view(ex, st, env[pn], pty)
+                    v = env[pn]
+                    # python-level list / tuple literals passed for an immutable sequence parameter become typed values
+                    if isinstance(pty, TSeq) and (isinstance(v, VTuple) or (
+                            isinstance(v, VRef) and isinstance(st.cell(v), ListCell) and st.cell(v).elem is None)):
+                        env[pn] = ex.freeze(st, v, pty)
                 except ValueError:
                     pass
         short = c.qualname.split(".")[-1]
@@ -946,7 +963,7 @@ class Registry:
             xenv = dict(env)
             xenv["exc"] = excref
             for cl in rc.ensures:
-                t = self.spec_eval(ex, s, cl.fn, self.lambda_env(cl.fn, xenv), pre_heap=pre_heap)
+                t = self.spec_eval(ex, s, cl.fn, self.lambda_env(cl.fn, xenv), pre_heap=pre_heap, params=env)
                 s.assume(ex.truth(s, t), f"xpost:{short}.{cl.name}")
             outs.append((s, Raised(excref)))
         # normal outcome
@@ -963,7 +980,7 @@ class Registry:
         for cl in c.ensures:
             if self.bind_identity(ex, s, cl.fn, renv):
                 continue
-            t = self.spec_eval(ex, s, cl.fn, self.lambda_env(cl.fn, renv), pre_heap=pre_heap)
+            t = self.spec_eval(ex, s, cl.fn, self.lambda_env(cl.fn, renv), pre_heap=pre_heap, params=env)
             s.assume(ex.truth(s, t), f"post:{short}.{cl.name}")
         outs.append((s, result))
         return outs
@@ -1238,7 +1255,7 @@ class Registry:
     def assume_invariant(self, ex, st, lc: LoopContract, entry_state):
         for cl in lc.invariant:
             t = self.spec_eval(ex, st, cl.fn, self.lambda_env(cl.fn, dict(st.env)), pre_heap=st.pre_heap, entry=entry_state)
-            st.assume(ex.truth(st, t), f"inv:{cl.name}")
+            st.assume(ex.truth(st, t), f"inv:{cl.name}|{','.join(cl.serves)}")
 
     def exec_while(self, ex, st, node: ast.While, lc, ordinal):
         if lc is None:
@@ -1357,6 +1374,7 @@ class Registry:
     def cut_for(self, ex, st, node, lc, ordinal, el, seq, mode, flt):
         n = z3.Length(seq)
         self.retype_locals(ex, st, lc)
+        outer = {k: st.env.get(k) for k in ("_i", "_seq")}     # an enclosing loop's ghost index / sequence
         entry = st.clone()
         st.env["_i"] = VInt(ival(0))
         st.env["_seq"] = VStr(seq) if el == "char" else VSeq(el, seq)
@@ -1374,9 +1392,16 @@ class Registry:
         out = []
         # exit path
         ex_s = head.clone()
+        def restore(s9):
+            for k9, v9 in outer.items():
+                if v9 is None:
+                    s9.env.pop(k9, None)
+                else:
+                    s9.env[k9] = v9
+
         if ex.feasible(ex_s, i == n):
             ex_s.assume(i == n, "loop-exit")
-            ex_s.env.pop("_i", None)
+            restore(ex_s)
             out.append((ex_s, Outcome(Outcome.NORMAL)))
         # iteration path
         it_s = head.clone()
@@ -1390,7 +1415,7 @@ class Registry:
                 self.check_invariant(ex, s3, lc, ordinal, "preserved", entry, node.lineno)
                 return []
             if oc.kind == Outcome.BREAK:
-                s3.env.pop("_i", None)
+                restore(s3)
                 return [(s3, Outcome(Outcome.NORMAL))]
             return [(s3, oc)]
 
@@ -1474,17 +1499,43 @@ class Registry:
             return [(s, s.alloc(ListCell(r.elem, r.t)))]
         return ex.bind(ex.eval(st, g.iter), k)
 
-    def symbolic_map(self, ex, st, el, seq, target, elt_expr) -> VSeq:
-        """[f(x) for x in xs] over a symbolic xs.  The element expression must be pure (checked: evaluating it
-        may not change the heap nor emit obligations other than on the bound element).  The result is
-        Map_k(xs, free...) for an uninterpreted Map_k, defined pointwise:  len(Map) == len(xs) and
-        Map[j] == f(xs[j]) (instances are added for every index term in the query, see instantiate())."""
+    def symbolic_map(self, ex, st, el, seq, target, elt_expr, index_name=None) -> VSeq:
+        """[f(x) for x in xs] over a symbolic xs.  The element expression must be pure (checked: evaluating it may
+        not change the heap).  The result is Map_k(xs, a1..an) for an uninterpreted Map_k that is determined by the
+        element expression alone: the python variables it reads are abstracted into parameters a1..an, so the same
+        comprehension applied to different argument values is the same function.  Defined pointwise:
+        len(Map) == len(xs), Map[j] == f(xs[j], a1..an) (instances added for the index terms of a query)."""
         x = fresh(INT if el == "char" else el.sort(), "cx")
         elem = VStr(z3.Unit(x)) if el == "char" else from_term(x, el)
         s = st.clone()
         heap_before = dict(s.heap)
         nobl = len(ex.obligations)
+        bound = {n.id for n in ast.walk(target) if isinstance(n, ast.Name)}
+        if index_name:
+            bound.add(index_name)
+        # abstract the free python variables that hold z3-level values
+        params = []          # (placeholder term, actual term)
+        for nm in sorted({n.id for n in ast.walk(elt_expr) if isinstance(n, ast.Name) and isinstance(n.ctx, ast.Load)}):
+            if nm in bound or nm not in s.env:
+                continue
+            v = s.env[nm]
+            try:
+                fv = ex.freeze(s, v) if isinstance(v, (VRef, VTuple)) else v
+                if isinstance(v, VRef) and isinstance(s.cell(v), ObjCell):
+                    continue
+                if not isinstance(fv, (VInt, VBool, VStr, VSeq, VRec, VOpt)):
+                    continue
+                ty = ty_of_val(fv)
+            except EngineUnsupported:
+                continue
+            ph = fresh(ty.sort(), "p_" + nm)
+            s.env[nm] = from_term(ph, ty)
+            params.append((ph, to_term(fv, ty)))
         ex.assign(s, target, elem)
+        jv = None
+        if index_name is not None:
+            jv = fresh(INT, "cj")
+            s.env[index_name] = VInt(jv)
         res = ex.eval(s, elt_expr)
         if len(res) != 1 or isinstance(res[0][1], Raised):
             raise EngineUnsupported("comprehension element forks or raises")
@@ -1492,31 +1543,38 @@ class Registry:
         for loc, c in heap_before.items():
             if s2.heap.get(loc) is not c:
                 raise EngineUnsupported("comprehension element has side effects")
-        if len(s2.pc) != len(s.pc):
-            extra = [t for _, t in s2.pc[len(s.pc):]]
-        else:
-            extra = []
         v = ex.freeze(s2, v)
         rty = ty_of_val(v)
         body = to_term(v, rty)
-        # safety obligations raised inside the element: they were recorded with pc mentioning x: generalise
         for ob in ex.obligations[nobl:]:
             ob.extra["bound"] = str(x)
-        # the map is determined by its element function alone (facts collected while evaluating the element are
-        # consequences of axioms / already-obliged preconditions, not part of the definition)
-        key = (str(x.sort()), z3.substitute(body, (x, z3.Const("_bv", x.sort()))).sexpr())
+            # obligations raised inside the element mention the placeholders: restate them over the actual values
+            if params:
+                ob.goal = z3.substitute(ob.goal, *params)
+                ob.hyps = [(l, z3.substitute(h, *params)) for l, h in ob.hyps]
+        # canonical name: body with bound variable / index / placeholders renamed positionally
+        ren = [(x, z3.Const("_bv", x.sort()))]
+        if jv is not None:
+            ren.append((jv, z3.Int("_bj")))
+        for i, (ph, _) in enumerate(params):
+            ren.append((ph, z3.Const(f"_bp{i}", ph.sort())))
+        nb = z3.substitute(body, *ren)
+        key = (str(x.sort()), nb.sexpr())
         if key not in self.map_cache:
-            name = f"Map{len(self.map_cache)}"
-            self.map_cache[key] = name
+            self.map_cache[key] = f"Map{len(self.map_cache)}"
         name = self.map_cache[key]
-        # free variables of body other than x become parameters
-        fvs = [c for c in _free_consts(body) if not z3.eq(c, x)]
+        # remaining free constants (fields of objects etc.) are parameters too
+        phs = [p for p, _ in params]
+        fvs = [c for c in _free_consts(body) if not z3.eq(c, x) and not (jv is not None and z3.eq(c, jv))
+               and not any(z3.eq(c, p) for p in phs)]
         fvs.sort(key=lambda c: str(c))
-        M = z3.Function(name, seq.sort(), *[c.sort() for c in fvs], TSeq(rty).sort())
-        mt = M(seq, *fvs)
+        M = z3.Function(name, seq.sort(), *[p.sort() for p in phs], *[c.sort() for c in fvs], TSeq(rty).sort())
+        mt = M(seq, *[a for _, a in params], *fvs)
         st.assume(z3.Length(mt) == z3.Length(seq), "map-len")
-        self.qfacts.append(MapFact(mt, seq, x, body, extra))
-        self.qfacts.append(GroundFact(mt, z3.Length(mt) == z3.Length(seq)))
+        if name not in self.map_defs:
+            # generic definition: applies to every application of the symbol (also those created by unfolding folds)
+            pseq = z3.Const("mseq_" + name, seq.sort())
+            self.map_defs[name] = MapDef(M, pseq, x, jv, phs, fvs, body)
         return VSeq(rty, mt)
 
     def eval_dictcomp(self, ex, st, e):
@@ -1528,6 +1586,28 @@ class Registry:
         m = self.symbolic_map(ex, st, el, seq, target, elt_expr)
         xt = to_term(ex.freeze(st, x, m.elem), m.elem)
         return z3.Contains(m.t, z3.Unit(xt))
+
+
+class MapDef:
+    """Map_k(seq, p1..pn, c1..cm)[j] == body[x := seq[j], idx := j, placeholders := p1..pn]  and  len(Map) == len(seq)"""
+
+    def __init__(self, M, pseq, x, jv, phs, fvs, body):
+        self.M, self.x, self.jv, self.phs, self.fvs, self.body = M, x, jv, phs, fvs, body
+
+    def instance(self, app, j):
+        seq = app.arg(0)
+        sub = [(self.x, seq[j])]
+        if self.jv is not None:
+            sub.append((self.jv, j))
+        for i, p in enumerate(self.phs):
+            sub.append((p, app.arg(1 + i)))
+        for i, c in enumerate(self.fvs):
+            sub.append((c, app.arg(1 + len(self.phs) + i)))
+        b = z3.substitute(self.body, *sub)
+        return z3.Implies(z3.And(j >= 0, j < z3.Length(seq)), app[j] == b)
+
+    def length(self, app):
+        return z3.Length(app) == z3.Length(app.arg(0))
 
 
 class GroundFact:
@@ -1553,9 +1633,15 @@ class MapFact:
     x: Any
     body: Any
     extra: list
+    jv: Any = None
+    params: Any = None
 
     def instance(self, j):
         b = z3.substitute(self.body, (self.x, self.seq[j]))
+        if self.jv is not None:
+            b = z3.substitute(b, (self.jv, j))
+        if self.params:
+            b = z3.substitute(b, *self.params)
         return z3.Implies(z3.And(j >= 0, j < z3.Length(self.seq)), self.mt[j] == b)
 
 
@@ -1775,4 +1861,7 @@ class SpecExecutor(Executor):
         lam = e.args[1]
         el, t = self.as_seq(st, src)
         tgt = ast.Name(id=lam.args.args[0].arg, ctx=ast.Store())
-        return [(st, self.reg.symbolic_map(self, st, el, t, tgt, lam.body))]
+        idx = lam.args.args[1].arg if len(lam.args.args) > 1 else None
+        if t is None:
+            raise EngineUnsupported("seq_map over an untyped empty list")
+        return [(st, self.reg.symbolic_map(self, st, el, t, tgt, lam.body, index_name=idx))]
